@@ -1,84 +1,517 @@
-"""Token-level model of strings and files (DESIGN I.9) — filled in with the reader/writer properties."""
+"""Token-level model of strings and files (DESIGN I.9).  ASSUMED semantics, part of the trusted base.
+
+Reading.  A text file opened for reading is a heap cell ``file`` = (pos, line_fn): ``readline()`` returns
+``line_fn(pos)`` and advances ``pos`` by one; at end of file it returns the empty line (falsy).  A line is a
+``LineVal``: a token list (what ``str.split()`` yields) or EOF.  A token is a literal word (``str``) or a hole
+``Tok(kind, value)`` with kind 'int' | 'float' and a value term; ``int(tok)`` / ``float(tok)`` / numpy's string->float
+conversion on assignment give the value (``int`` of a 'float' token raises ValueError, as in Python).  A numeric token
+is never equal to a literal word and contains no whitespace.  Token lists may have a symbolic length (atom lines with
+arbitrary trailing columns, neighbour rows); python slicing of a token list clamps like list slicing.
+
+Writing.  A file opened for writing collects ``items``: written texts in program order; a symbolic loop whose body only
+writes is summarised as a ``Block(var, lo, hi, items(var))`` (loops.py).  Texts are built from literals and holes by
+``%``-formatting, f-strings, ``str()``, ``' '.join(map(str, …))`` (``Run``: a separated run of holes of symbolic length) and
+``np.array2string`` (under the print options the code sets: no truncation, no wrapping) + ``re.sub('[\\[\\]]', ' ', …)``.
+``Text.lines()`` splits a text with concrete structure into token lines.
+"""
 from __future__ import annotations
 
-from .sv import EngineError
+import ast
+from fractions import Fraction
+
+from . import arr as A
+from . import sv
+from .state import Content, cur
+from .sv import SV, EngineError, is_conc, norm
 
 
 class Tok:
-    """a token hole ⟨kind, value⟩"""
+    """a token hole ⟨kind, value⟩; kind in {'int', 'float'}"""
+    __slots__ = ("kind", "value")
+
     def __init__(self, kind, value):
         self.kind, self.value = kind, value
 
+    def __repr__(self):
+        return f"⟨{self.kind}:{self.value}⟩"
+
+
+class TokList:
+    """result of line.split(): n tokens (n concrete or symbolic), fn(c) -> str | Tok"""
+    __slots__ = ("n", "fn")
+
+    def __init__(self, n, fn):
+        self.n, self.fn = n, fn
+
+    @staticmethod
+    def of(items):
+        items = list(items)
+        return TokList(len(items), lambda c: items[int(c)] if is_conc(c) else _pick_tok(items, c))
+
+    def concrete(self):
+        return is_conc(self.n)
+
+    def items(self):
+        if not self.concrete():
+            raise EngineError("iteration over a token list of symbolic length")
+        return [self.fn(c) for c in range(int(self.n))]
+
+
+def _pick_tok(items, c):
+    if all(isinstance(x, Tok) and x.kind == items[0].kind for x in items):
+        return Tok(items[0].kind, A._pick([norm(x.value) for x in items], c))
+    raise EngineError("symbolic index into a heterogeneous token list")
+
+
+class LineVal:
+    """a line returned by readline(): eof (bool/SV) or tokens"""
+    __slots__ = ("eof", "toks")
+
+    def __init__(self, toks=None, eof=False):
+        self.toks, self.eof = toks, eof
+
+
+def int_of(v):
+    if isinstance(v, str):
+        try:
+            return int(v)
+        except ValueError:
+            from .interp import PyRaise
+            raise PyRaise("ValueError", f"invalid literal for int(): {v!r}")
+    if isinstance(v, Tok):
+        if v.kind == "int":
+            return v.value
+        from .interp import PyRaise
+        raise PyRaise("ValueError", "invalid literal for int() with base 10 (a float-formatted token)")
+    if isinstance(v, LineVal):
+        return int_of(_single_token(v))
+    raise EngineError("int of token")
+
+
+def float_of(v):
+    if isinstance(v, str):
+        try:
+            return Fraction(v)
+        except ValueError:
+            from .interp import PyRaise
+            raise PyRaise("ValueError", f"could not convert string to float: {v!r}")
+    if isinstance(v, Tok):
+        return sv.to_real(v.value)
+    if isinstance(v, LineVal):
+        return float_of(_single_token(v))
+    raise EngineError("float of token")
+
+
+def _single_token(line):
+    if line.toks is None:
+        from .interp import PyRaise
+        raise PyRaise("ValueError", "invalid literal: empty line")
+    if line.toks.concrete():
+        if int(line.toks.n) != 1:
+            from .interp import PyRaise
+            raise PyRaise("ValueError", "invalid literal: line with several tokens")
+        return line.toks.fn(0)
+    cur().require(sv.cmp("==", line.toks.n, 1), "single-token-line")
+    return line.toks.fn(0)
+
+
+def tok_to_scalar(t, dtype="float"):
+    """numpy conversion of a token stored into a numeric array"""
+    if isinstance(t, (Tok, str)):
+        return float_of(t) if dtype != "int" else int_of(t)
+    return t
+
+
+# ----------------------------------------------------------------------------------------------
+# reading
+
+
+def open_file(interp, path, mode="r", **kw):
+    from .interp import Ref
+    mode = mode if isinstance(mode, str) else "r"
+    if "w" in mode or "a" in mode:
+        return Ref(cur().alloc(Content("file", {"mode": "w", "path": path, "items": ()})), "file")
+    st = cur()
+    reg = getattr(st, "files", None) or {}
+    key = path if isinstance(path, str) else repr(path)
+    if key in reg:
+        pos0, line_fn = reg[key]
+        return Ref(st.alloc(Content("file", {"mode": "r", "path": path, "pos": pos0, "line_fn": line_fn})), "file")
+    from .interp import PyRaise
+    raise PyRaise("unresolved-callee", f"open({path!r}): no file model registered for this path")
+
+
+def new_rfile(pos, line_fn, path="<symbolic file>"):
+    """symbolic text file opened for reading (contracts build these): line_fn(pos) -> LineVal"""
+    from .interp import Ref
+    return Ref(cur().alloc(Content("file", {"mode": "r", "path": path, "pos": pos, "line_fn": line_fn})), "file")
+
+
+def file_method(interp, f, meth, args, kwargs):
+    c = cur().heap[f.sid]
+    d = c.data
+    if meth == "readline":
+        if d["mode"] != "r":
+            from .interp import PyRaise
+            raise PyRaise("UnsupportedOperation", "not readable")
+        pos = d["pos"]
+        line = d["line_fn"](pos)
+        nd = dict(d)
+        nd["pos"] = A.simp(sv.add(pos, 1))
+        cur().heap[f.sid] = Content("file", nd, c.meta)
+        return line
+    if meth == "write":
+        if d["mode"] != "w":
+            from .interp import PyRaise
+            raise PyRaise("UnsupportedOperation", "not writable")
+        nd = dict(d)
+        nd["items"] = tuple(d["items"]) + (to_text(interp, args[0]),)
+        cur().heap[f.sid] = Content("file", nd, c.meta)
+        cur().trace.append(("write", f.sid, cur().where))
+        return None
+    if meth == "close":
+        nd = dict(d)
+        nd["closed"] = True
+        cur().heap[f.sid] = Content("file", nd, c.meta)
+        return None
+    if meth in ("__enter__",):
+        return f
+    if meth in ("__exit__", "flush"):
+        return None
+    raise EngineError(f"file.{meth}")
+
+
+def line_truth(interp, line):
+    """truth value of a line: '' (EOF) is falsy"""
+    if isinstance(line.eof, SV):
+        return sv.not_(line.eof)
+    return not line.eof
+
+
+def line_method(interp, line, meth, args, kwargs):
+    if meth == "split":
+        if args:
+            raise EngineError("split with a separator")
+        if line.toks is None:
+            return TokList.of([])
+        return line.toks
+    if meth in ("strip", "rstrip", "lstrip"):
+        return line
+    raise EngineError(f"str.{meth} on a file line")
+
+
+def toklist_getitem(interp, tl, key):
+    if isinstance(key, slice):
+        if key.step is not None:
+            raise EngineError("token slice step")
+        n = tl.n
+        lo = 0 if key.start is None else norm(key.start)
+        hi = n if key.stop is None else norm(key.stop)
+        if is_conc(lo) and lo < 0:
+            lo = A.simp(sv.add(n, lo))
+        if is_conc(hi) and hi < 0:
+            hi = A.simp(sv.add(n, hi))
+        if is_conc(lo) and is_conc(hi) and is_conc(n):
+            lo2 = max(0, min(int(lo), int(n)))
+            hi2 = max(lo2, min(int(hi), int(n)))
+            base = tl.fn
+            return TokList(hi2 - lo2, lambda c, lo2=lo2: base(lo2 + c if is_conc(c) else A.simp(sv.add(lo2, c))))
+        # symbolic bounds: python clamps; we require the slice to lie inside the list (the line has the tokens the
+        # caller is about to use): side obligation
+        cur().require(sv.and_(sv.cmp("<=", 0, lo), sv.cmp("<=", lo, hi), sv.cmp("<=", hi, n)), "token-slice-inside-line")
+        base = tl.fn
+        return TokList(A.simp(sv.sub(hi, lo)), lambda c, lo=lo: base(A.simp(sv.add(lo, c))))
+    k = norm(key)
+    if is_conc(k):
+        k = int(k)
+        if k < 0:
+            if not is_conc(tl.n):
+                return tl.fn(A.simp(sv.add(tl.n, k)))
+            k += int(tl.n)
+        if is_conc(tl.n) and not (0 <= k < int(tl.n)):
+            from .interp import PyRaise
+            raise PyRaise("IndexError", "list index out of range")
+        if not is_conc(tl.n):
+            cur().require(sv.cmp("<", k, tl.n), "token-index-inside-line")
+        return tl.fn(k)
+    cur().require(sv.and_(sv.cmp(">=", k, 0), sv.cmp("<", k, tl.n)), "token-index-inside-line")
+    return tl.fn(k)
+
+
+def toklist_contains(interp, tl, item):
+    if not isinstance(item, str):
+        raise EngineError("'in' token list with a non-literal")
+    if not tl.concrete():
+        raise EngineError("'in' on a token list of symbolic length")
+    return any(isinstance(x, str) and x == item for x in tl.items())
+
+
+def toklist_to_array(tl, dtype=None):
+    """np.array(tokens, dtype=float) / assignment of tokens into a numeric array"""
+    dt = "float" if dtype in (None, "float") else dtype
+    if tl.concrete():
+        return A.from_nested([tok_to_scalar(x, dt) for x in tl.items()], dt)
+    fn = tl.fn
+    return A.new_arr((tl.n,), lambda idx: tok_to_scalar(fn(idx[0]), dt), dt)
+
+
+# ----------------------------------------------------------------------------------------------
+# writing: texts
+
+
+class Run:
+    """sep.join(str(x_t) for t < n): a separated run of numeric holes of (possibly symbolic) length"""
+    __slots__ = ("n", "fn", "sep", "kind")
+
+    def __init__(self, n, fn, sep, kind):
+        self.n, self.fn, self.sep, self.kind = n, fn, sep, kind
+
+
+class Text:
+    """concatenation of pieces: str | Tok | Run | Rows"""
+    __slots__ = ("pieces",)
+
+    def __init__(self, pieces):
+        out = []
+        for p in pieces:
+            if isinstance(p, Text):
+                out.extend(p.pieces)
+            elif isinstance(p, str):
+                if p == "":
+                    continue
+                if out and isinstance(out[-1], str):
+                    out[-1] = out[-1] + p
+                else:
+                    out.append(p)
+            else:
+                out.append(p)
+        self.pieces = out
+
+    def __repr__(self):
+        return "Text(" + " ".join(repr(p) for p in self.pieces) + ")"
+
+
+class Rows:
+    """np.array2string of a 2-D integer array under threshold=linewidth=inf, brackets replaced by blanks:
+    one line per row, the row's numbers separated by blanks"""
+    __slots__ = ("n", "width", "fn")
+
+    def __init__(self, n, width, fn):
+        self.n, self.width, self.fn = n, width, fn   # fn(i, c) -> value
+
+
+def to_text(interp, v):
+    v = norm(v) if not isinstance(v, (Text, Tok, Run, Rows)) else v
+    if isinstance(v, Text):
+        return v
+    if isinstance(v, (Tok, Run, Rows)):
+        return Text([v])
+    if isinstance(v, str):
+        return Text([v])
+    if isinstance(v, bool):
+        return Text([str(v)])
+    if isinstance(v, int):
+        return Text([str(v)])
+    if isinstance(v, SV) and v.is_int:
+        return Text([Tok("int", v)])
+    if isinstance(v, Fraction) or (isinstance(v, SV) and v.is_real):
+        return Text([Tok("float", v)])
+    raise EngineError(f"text of {type(v).__name__}")
+
+
+def to_str(interp, v):
+    """builtin str()"""
+    v = norm(v)
+    if isinstance(v, str):
+        return v
+    if isinstance(v, (bool, int)) and not isinstance(v, SV):
+        return str(v)
+    if isinstance(v, A.Arr) and v.shape == ():
+        v = v.get(())
+    return to_text(interp, v)
+
 
 def percent_format(interp, fmt, args):
-    raise EngineError("% formatting")
+    """'%d %d ' % (a, b)  /  '%.6f' % x"""
+    import re
+    if not isinstance(args, tuple):
+        args = (args,)
+    args = list(args)
+    pieces = []
+    pos = 0
+    for m in re.finditer(r"%(?:\.(\d+))?([dfs%ge])", fmt):
+        pieces.append(fmt[pos:m.start()])
+        pos = m.end()
+        conv = m.group(2)
+        if conv == "%":
+            pieces.append("%")
+            continue
+        if not args:
+            from .interp import PyRaise
+            raise PyRaise("TypeError", "not enough arguments for format string")
+        a = norm(args.pop(0))
+        if isinstance(a, A.Arr) and a.shape == ():
+            a = a.get(())
+        if conv == "d":
+            if isinstance(a, (Text, str)):
+                from .interp import PyRaise
+                raise PyRaise("TypeError", "%d format: a real number is required")
+            pieces.append(Tok("int", sv.trunc(a)) if not (is_conc(a) and not isinstance(a, Fraction)) else str(int(a)))
+        elif conv in ("f", "g", "e"):
+            nd = int(m.group(1)) if m.group(1) else 6
+            pieces.append(Tok("float", sv.round_dec(sv.to_real(a), nd) if nd in (6, 8) else sv.to_real(a)))
+        else:
+            pieces.append(to_str(interp, a) if not isinstance(a, (Text,)) else a)
+    pieces.append(fmt[pos:])
+    if args:
+        from .interp import PyRaise
+        raise PyRaise("TypeError", "not all arguments converted during string formatting")
+    return Text(pieces)
 
 
 def text_binop(interp, op, a, b):
+    if op == "+":
+        return Text([a if isinstance(a, (str, Text)) else to_text(interp, a), b if isinstance(b, (str, Text)) else to_text(interp, b)])
     raise EngineError(f"string operator {op}")
 
 
 def fstring(interp, node, frame):
-    import ast
     parts = []
     for v in node.values:
         if isinstance(v, ast.Constant):
             parts.append(v.value)
+            continue
+        val = interp.eval(v.value, frame)
+        spec = None
+        if v.format_spec is not None:
+            spec = "".join(x.value for x in v.format_spec.values if isinstance(x, ast.Constant))
+        val = norm(val) if not isinstance(val, (Text, Tok)) else val
+        if isinstance(val, str):
+            parts.append(val)
+        elif spec and spec.endswith("f"):
+            nd = int(spec[1:-1]) if spec.startswith(".") and spec[1:-1].isdigit() else 6
+            parts.append(Tok("float", sv.round_dec(sv.to_real(val), nd) if nd in (6, 8) else sv.to_real(val)))
+        elif spec in (None, "", "d"):
+            parts.append(to_str(interp, val))
         else:
-            val = interp.eval(v.value, frame)
-            if isinstance(val, str):
-                parts.append(val)
-            else:
-                from .sv import is_conc
-                if is_conc(val) and not v.format_spec:
-                    parts.append(str(val))
-                else:
-                    raise EngineError("f-string with symbolic value")
-    return "".join(parts)
+            raise EngineError(f"f-string format spec {spec!r}")
+    if all(isinstance(p, str) for p in parts):
+        return "".join(parts)
+    return Text(parts)
+
+
+def str_join(interp, sep, it):
+    """sep.join(iterable of strings / texts)"""
+    from .interp import Ref
+    it = norm(it) if not isinstance(it, MapStr) else it
+    if isinstance(it, MapStr):
+        a = it.arr
+        r = a.reader()
+        kind = "int" if a.dtype in ("int", "bool") else "float"
+        return Text([Run(a.shape[0], lambda t: r((t,)), sep, kind)])
+    items = interp.iter_concrete(it)
+    out = []
+    for k, x in enumerate(items):
+        if k:
+            out.append(sep)
+        out.append(x if isinstance(x, (str, Text)) else to_text(interp, x))
+    if all(isinstance(p, str) for p in out):
+        return "".join(out)
+    return Text(out)
+
+
+class MapStr:
+    """map(str, <1-D array>)"""
+    def __init__(self, arr):
+        self.arr = arr
 
 
 def str_method(interp, s, meth, args, kwargs):
     from .interp import new_list
+    if isinstance(s, LineVal):
+        return line_method(interp, s, meth, args, kwargs)
+    if meth == "join":
+        return str_join(interp, s, args[0])
+    if isinstance(s, Text):
+        raise EngineError(f"Text.{meth}")
     if meth == "split":
         return new_list(s.split(*args))
-    if meth in ("lower", "upper", "strip"):
+    if meth in ("lower", "upper", "strip", "rstrip", "lstrip"):
         return getattr(s, meth)(*args)
     if meth in ("startswith", "endswith"):
         return getattr(s, meth)(*args)
-    if meth == "join":
-        items = interp.iter_concrete(args[0])
-        if all(isinstance(x, str) for x in items):
-            return s.join(items)
     if meth == "format":
         raise EngineError("str.format")
     raise EngineError(f"str.{meth}")
 
 
-def file_method(interp, f, meth, args, kwargs):
-    raise EngineError(f"file.{meth}")
+# ----------------------------------------------------------------------------------------------
+# flattening written items into token lines (used by contracts to state what a writer produced)
 
 
-def open_file(interp, path, mode):
-    raise EngineError("open()")
+class Block:
+    """items written by a symbolic loop: for var in [lo, hi): items(var)"""
+    __slots__ = ("var", "lo", "hi", "items")
+
+    def __init__(self, var, lo, hi, items):
+        self.var, self.lo, self.hi, self.items = var, lo, hi, items
+
+    def at(self, i):
+        """the items of iteration i"""
+        import z3
+        return tuple(subst_item(x, [(self.var, sv.znum(i))]) for x in self.items)
 
 
-def int_of(v):
-    if isinstance(v, str):
-        return int(v)
-    raise EngineError("int of token")
+def subst_item(x, pairs):
+    from .loops import _subst_val
+    if isinstance(x, Text):
+        return Text([subst_item(p, pairs) for p in x.pieces])
+    if isinstance(x, str):
+        return x
+    if isinstance(x, Tok):
+        return Tok(x.kind, _subst_val(x.value, pairs))
+    if isinstance(x, Run):
+        fn = x.fn
+        return Run(_subst_val(x.n, pairs), (lambda t, fn=fn: _subst_val(fn(t), pairs)), x.sep, x.kind)
+    if isinstance(x, Rows):
+        fn = x.fn
+        return Rows(_subst_val(x.n, pairs), _subst_val(x.width, pairs), (lambda i, c, fn=fn: _subst_val(fn(i, c), pairs)))
+    if isinstance(x, Block):
+        return Block(x.var, _subst_val(x.lo, pairs), _subst_val(x.hi, pairs), tuple(subst_item(y, pairs) for y in x.items))
+    raise EngineError(f"item {type(x).__name__}")
 
 
-def float_of(v):
-    from fractions import Fraction
-    if isinstance(v, str):
-        return Fraction(v)
-    raise EngineError("float of token")
+def text_lines(items):
+    """flatten a sequence of written Texts (no Block, no Rows) into lines of tokens.
+    returns list of lines; a line is a list of tokens: str | Tok | Run.  The last element is the unfinished line ([] if the
+    text ends with a newline)."""
+    lines, curl = [], []
+    pending = ""      # partial literal word
 
-
-def to_str(interp, v):
-    from .sv import is_conc
-    if isinstance(v, str):
-        return v
-    if is_conc(v):
-        return str(v)
-    raise EngineError("str() of symbolic value")
+    def flush_word():
+        nonlocal pending
+        if pending:
+            curl.append(pending)
+            pending = ""
+    for it in items:
+        pieces = it.pieces if isinstance(it, Text) else [it]
+        for p in pieces:
+            if isinstance(p, str):
+                for ch in p:
+                    if ch == "\n":
+                        flush_word()
+                        lines.append(list(curl))
+                        curl.clear()
+                    elif ch in " \t\r":
+                        flush_word()
+                    else:
+                        pending += ch
+            elif isinstance(p, (Tok, Run)):
+                if pending:
+                    raise EngineError("a number is glued to a literal word in the written text")
+                curl.append(p)
+            else:
+                raise EngineError(f"text_lines: {type(p).__name__}")
+    flush_word()
+    lines.append(list(curl))
+    return lines
